@@ -458,6 +458,15 @@ def State.putVictim (s : State) (old : Option Page) (avail : Int) : State × Opt
     if o.ref > 0 then (s.updPage o.id (fun p => { p with pri := .zombie }), none, avail, [])
     else (s, some o.id, avail + o.size, [o.id])
 
+/-- `_vbi_cache_put_page` after the key was chosen: look-up of the version to replace, death row, replacement -/
+def State.putTail (s : State) (nid : Nat) (a : PutArg) (k1 k2 : Nat) (avail0 : Int) : Except Err (State × Option Page) :=
+  let r := s.pageByPgno nid a.pgno (k1 &&& k2) k2
+  let v := r.1.putVictim r.2 avail0
+  match collectAll v.1 v.2.1 (pageSize a.func a.x26 a.x28 : Int) v.2.2.1 v.2.2.2 with
+  | .error e => .error e
+  | .ok none => .ok (v.1, none)
+  | .ok (some (avail, row)) => v.1.putReplace nid a k1 avail row
+
 /-- `_vbi_cache_put_page`.  Precondition of the C function (asserted in `cache_network_page_stat`):
     0x100 <= pgno <= 0x8FF; callers guarantee it, the model reports a violation as `assertFail`. -/
 def State.putPage (s : State) (nid : Nat) (a : PutArg) : Except Err (State × Option Page) :=
@@ -467,15 +476,8 @@ def State.putPage (s : State) (nid : Nat) (a : PutArg) : Except Err (State × Op
     if a.pgno &&& 0xFF = 0xFF then .ok (s, none)
     else if a.pgno < 0x100 ∨ a.pgno > 0x8FF then .error (.assertFail "page_stat")
     else
-      let needed : Int := pageSize a.func a.x26 a.x28
-      let avail : Int := (s.memLimit : Int) - s.memUsed
       let key := putKey (cn.getStat a.pgno).ptype a.pgno a.subno
-      let r := s.pageByPgno nid a.pgno (key.1 &&& key.2) key.2
-      let v := r.1.putVictim r.2 avail
-      match collectAll v.1 v.2.1 needed v.2.2.1 v.2.2.2 with
-      | .error e => .error e
-      | .ok none => .ok (v.1, none)
-      | .ok (some (avail, row)) => v.1.putReplace nid a key.1 avail row
+      s.putTail nid a key.1 key.2 ((s.memLimit : Int) - s.memUsed)
 
 /-! ## _vbi_cache_foreach_page -/
 
